@@ -1,5 +1,43 @@
 (* Invariants of the interleaving model (AtomicLTS.v) and their consequences,
-   for every number of threads, every program and every schedule. *)
+   for every number of threads, every program and every schedule.
+
+   Structure
+     ale            the monotone order on the shared allocator state: gens, alive,
+                    cache fixed; clen only decreases, max_id only increases,
+                    raised / killed only grow.  Every step is ale (tstep_ale).
+     TI a t         per-thread invariant relative to the shared state, stable
+                    under ale (TI_stable), preserved by the thread's own steps
+                    (TI_step); GI = ale from the start + TI for every thread.
+     claims         tstep_tids: a step leaves the indices a thread holds
+                    unchanged, or adds one index nobody holds (the position
+                    [clen] of the initial free list while decrementing it, or
+                    the fresh index [max_id] while incrementing it); ids_step:
+                    all indices held are pairwise distinct.
+     LI             linearisation: the sequential replay of the history
+                    variable [lin] on AllocModel (a_alloc_atomic / a_kill_atomic)
+                    equals the shared state except that its [raised] is ahead
+                    by the indices claimed and not yet raised (tstep_lin).
+     RI             the results the replay returns to a thread are the results
+                    the thread received (+ the handle of a creation in flight).
+     QI             the queue is an interleaving of the pushes executed so far.
+   Consequences (stated from R in section Final, used by Props/C10.v):
+     (a) conc_handles_distinct   (b) conc_alive_from_return
+     (c) conc_delete_check_passes, conc_delete_of_live_ok, conc_delete_recorded
+     (d) conc_final_state_sequential (exact, up to set representation),
+         conc_results_linearisable, conc_final_state_refines (R to Life)
+     (e) conc_queue_interleaving       + conc_never_stuck, conc_programs_in_order
+
+   Hypothesis on the handles a program may name ([hinit_okb], AtomicLTS.v):
+   issued by this allocator.  Without it (d) is false: a forged handle
+   carrying the next generation of a free index is reported dead before and
+   alive after another thread's raised.add_atomic, which no sequential order of
+   whole operations explains (see the comment at alive_transfer).
+
+   Not proved here as one statement: "after the next maintain the alive set is
+   initial + created - requested".  conc_final_state_refines hands the final
+   state to the sequential development (R, valid choices, same outputs), where
+   AllocRefine.merge_ref / entities_ref and the C02 theorems apply; the set
+   equation itself is evaluated on every explored case by c10_ok. *)
 From SV Require Import Base.ListX Alloc.LifeProps Alloc.AllocRefine Conc.AtomicLTS.
 From SV Require World.World World.WorldSpec World.Simulation.
 From Coq Require Import Permutation.
@@ -711,7 +749,12 @@ Proof.
 Qed.
 
 (* the replay and the shared state agree on the aliveness of every handle a
-   thread may use *)
+   thread may use.  (For an arbitrary handle this is false: with index i free at
+   generation -g, not raised, and i claimed by another thread but not raised
+   yet, the handle (i, g+1) is dead in the shared state and alive in the
+   replay.  Thread A pops i; B pops j; B raises j; C sees (j,.) alive, then
+   (i,.) dead; A raises i: A's creation must precede B's (free-list order),
+   C's first query follows B's, C's second precedes A's -- a cycle.) *)
 Lemma alive_transfer a b F e : ale a0 a -> LIr a b F -> hgood a e -> a_is_alive b e = a_is_alive a e.
 Proof.
   intros Ha HL [G1 [G2 G3]]. pose proof (LIr_ale _ _ _ Ha HL) as Hb.
